@@ -237,10 +237,6 @@ impl Prop for C05 {
                 let in_header_anon_stmt = header_anon_ords.iter().any(|(a, b)| f.ord >= *a && f.ord <= *b);
                 let class = if wf::in_ranges(&fb, f.ord) {
                     "wrap-fallback".to_string()
-                } else if obs.reflow_cache_hit() && input.contains("'''") && matches!(f.kind, BlockKind::AnonBegin | BlockKind::CtrlBegin | BlockKind::PlainBegin | BlockKind::Try | BlockKind::Finally | BlockKind::Except | BlockKind::Repeat | BlockKind::CaseElse) {
-                    // child lines (anonymous routine bodies) laid out by the second wrapping round from
-                    // solutions memoised before a multi-line literal was re-indented
-                    "reflow-child-cache".to_string()
                 } else if f.class == "anon-single-statement-body" {
                     f.class.to_string()
                 } else if in_header_anon_stmt {
@@ -251,6 +247,10 @@ impl Prop for C05 {
                     "strict-identifier-in-type-body".to_string()
                 } else if strict_comment_ord.is_some_and(|o| f.ord >= o) && matches!(f.kind, BlockKind::Visibility | BlockKind::TypeBody | BlockKind::DeclSection) {
                     "comment-between-strict-and-visibility".to_string()
+                } else if obs.reflow_cache_hit() && input.contains("'''") && matches!(f.kind, BlockKind::AnonBegin | BlockKind::CtrlBegin | BlockKind::PlainBegin | BlockKind::Try | BlockKind::Finally | BlockKind::Except | BlockKind::Repeat | BlockKind::CaseElse) {
+                    // child lines (anonymous routine bodies) laid out by the second wrapping round from
+                    // solutions memoised before a multi-line literal was re-indented
+                    "reflow-child-cache".to_string()
                 } else {
                     f.class.to_string()
                 };
